@@ -15,10 +15,11 @@ it with the comparison `agree32` that the harness evaluates on the real scanners
 
 The domain is evaluated on the xgo model's own run in the compared mode (`shRunOK`): no ILLEGAL
 token, no keyword (TPL has none and inserts `;` after every identifier), no `c"…"`/`py"…"`, no
-`*` directly followed by `*` (TPL: `**`), and every comment (returned or skipped) free of CRs
-(the scanners strip them differently), not `#/…`/`#*…` (an XGo quirk) and not continuing with
-"line " after two bytes (only XGo interprets line directives, also `# line …`).  Each exclusion is
-a real difference (witnesses below).
+`*` directly followed by `*` (TPL: `**`), and every comment (returned or skipped) without a CR
+inside `/*…*/` or `#…` (the scanners strip them differently there; inside `//…` both remove every
+CR, which is part of the theorem), not `#/…`/`#*…` (an XGo quirk) and not continuing with "line "
+after two bytes (only XGo interprets line directives, also `# line …`).  Each exclusion is a real
+difference (witnesses below).
 
 Proof: `Lemmas/ScanC32a…e.lean`: from the same scanner state one pass through `Scan` of the two
 dialects ends in the same state and returns related tokens (`step32`: comment scanners
